@@ -141,3 +141,34 @@ func (vp *VC08Part) Select(sids []uint64, minKey, maxKey int64, f index.Filter, 
 
 // Release returns the part to its pool.
 func (vp *VC08Part) Release() { ReleaseMemPart(vp.mp) }
+
+// VC08Primary describes one primary (index) block of the part as recorded in the part's meta file.
+type VC08Primary struct {
+	FirstSid uint64
+	MinKey   int64
+	MaxKey   int64
+}
+
+// PrimaryBlocks lists the primary blocks of the part.
+func (vp *VC08Part) PrimaryBlocks() []VC08Primary {
+	var out []VC08Primary
+	for i := range vp.p.primaryBlockMetadata {
+		pb := &vp.p.primaryBlockMetadata[i]
+		out = append(out, VC08Primary{uint64(pb.seriesID), pb.minKey, pb.maxKey})
+	}
+	return out
+}
+
+// PartKeys returns the part-level key bounds recorded in the part metadata (what Snapshot.getParts prunes on).
+func (vp *VC08Part) PartKeys() (int64, int64) {
+	return vp.p.partMetadata.MinKey, vp.p.partMetadata.MaxKey
+}
+
+// GetParts runs the real Snapshot.getParts on a snapshot holding just this part.
+func (vp *VC08Part) GetParts(minKey, maxKey int64) bool {
+	s := &Snapshot{parts: []*partWrapper{{p: vp.p, ref: 1}}, ref: 1}
+	return len(s.getParts(minKey, maxKey)) == 1
+}
+
+// VC08MaxPrimaryBlockSize is the real limit of uncompressed block metadata per primary block.
+const VC08MaxPrimaryBlockSize = maxUncompressedPrimaryBlockSize
